@@ -90,13 +90,15 @@ Qed.
    the token read from  quote_string s ++ rest  is the STRING token with value s, spanning
    exactly the quoted text (provided the text is not mistaken for the start of a block
    string, i.e. s is not empty or rest does not start with a double quote) *)
-Theorem quote_lex_roundtrip_ascii : forall s rest, (forall c, In c s -> c < 128) ->
+Theorem quote_lex_roundtrip_ascii_gen : forall s rest, (forall c, In c s -> c < 128) ->
   (s <> [] \/ forall r, rest <> 34 :: r) ->
   exists q, quote_string s = Ok q /\
-    read_token (S (length (q ++ rest))) (q ++ rest) 0 = Ok (mktok STRING 0 (nlen q) s, rest, nlen q).
+    forall pos fuel, (length (q ++ rest) < fuel)%nat ->
+    read_token fuel (q ++ rest) pos = Ok (mktok STRING pos (pos + nlen q) s, rest, pos + nlen q).
 Proof.
   intros s rest H Hne. destruct (quote_body_ascii s H) as (b & Hb & Hr).
   exists (34 :: b ++ [34]). split; [unfold quote_string; unfold bytes, byte in *; rewrite Hb; reflexivity|].
+  intros pos fuel Hf.
   unfold read_token. cbn [app]. rewrite (rune_at_ascii 34 _ ltac:(lia)).
   change ((34 <? 32) && negb (34 =? 9) && negb (34 =? 10) && negb (34 =? 13)) with false. cbv iota.
   change (punct1 34) with (@None tkind). cbv iota. change (34 =? 46) with false. cbv iota.
@@ -130,18 +132,27 @@ Proof.
   rewrite NB.
   change (dropN 1 (34 :: (b ++ [34]) ++ rest)) with ((b ++ [34]) ++ rest).
   rewrite <- app_assoc. cbn [app].
-  rewrite (Hr _ rest (0 + 1)).
+  unfold bytes, byte in *. rewrite (Hr fuel rest (pos + 1)).
   - f_equal. f_equal; [f_equal|].
     + f_equal. unfold nlen. cbn [length]. rewrite app_length. cbn [length]. lia.
     + unfold nlen. cbn [length]. rewrite app_length. cbn [length]. lia.
-  - cbn [length]. rewrite !app_length. cbn [length].
+  - cbn [length app] in Hf. rewrite !app_length in Hf. cbn [length] in Hf.
     assert (length s <= length b)%nat; [|lia].
     clear - Hb H. revert b Hb. induction s as [|c s IH]; intros b Hb; [simpl; lia|].
     cbn [length] in Hb. rewrite quote_body_step in Hb. assert (Hc : c < 128) by (apply H; left; reflexivity).
     rewrite (rune_at_ascii c s Hc) in Hb. change (dropN 1 (c :: s)) with s in Hb.
     destruct (quote_body (S (length s)) s) as [b'| |] eqn:E; try discriminate. inversion Hb; subst b.
     specialize (IH (fun x Hx => H x (or_intror Hx)) b' eq_refl). rewrite app_length. cbn [length].
-    assert (1 <= length (quote_rune c))%nat; [|lia].
+    assert (1 <= length (quote_rune c))%nat; [|unfold bytes, byte in *; lia].
     unfold quote_rune. repeat (match goal with |- context [if ?X then _ else _] => destruct X end; try (simpl; lia)).
     unfold encode_rune, utf8_encode. repeat (match goal with |- context [if ?X then _ else _] => destruct X end; try (simpl; lia)).
+Qed.
+
+Theorem quote_lex_roundtrip_ascii : forall s rest, (forall c, In c s -> c < 128) ->
+  (s <> [] \/ forall r, rest <> 34 :: r) ->
+  exists q, quote_string s = Ok q /\
+    read_token (S (length (q ++ rest))) (q ++ rest) 0 = Ok (mktok STRING 0 (nlen q) s, rest, nlen q).
+Proof.
+  intros s rest H Hne. destruct (quote_lex_roundtrip_ascii_gen s rest H Hne) as (q & Hq & Hr).
+  exists q. split; [exact Hq|]. rewrite (Hr 0 (S (length (q ++ rest))) ltac:(lia)). reflexivity.
 Qed.
